@@ -544,6 +544,29 @@ def gaps_block(R, rng, thorough):
         R.append("c04.mnorm 1 2 %s %s" % (hx(3e200), hx(4e200))); R.append("c04.mnorm 1 2 %s %s" % (hx(3e-170), hx(4e-170)))
 
 
+
+def moves_block(R, rng, thorough):
+    """objects constructed from rvalues (swap, std::move, push_back of temporaries, returned by-value parameters, lists of
+    blocks): non-square and square shapes; and the rounding mode around Norm / Normalize / Normalized"""
+    shapes = [(1, 2), (2, 1), (2, 3), (3, 2), (1, 4), (4, 2), (3, 3), (2, 2), (1, 1), (3, 5)]
+    shapes += [(rng.randint(1, 6), rng.randint(1, 6)) for _ in range(20 if thorough else 6)]
+    for (m, n) in shapes:
+        fam = rng.choice(["dy", "mx"])
+        for k in ("swap", "move", "push", "ret", "assign", "blocks"):
+            A = rmat(rng, m, n, fam)
+            B = rmat(rng, m if k == "blocks" else rng.randint(1, 5), rng.randint(1, 5), fam)
+            R.append("c04.moves %s %s %s" % (k, mat_tok(A), mat_tok(B)))
+        for k in ("swap", "move", "push", "ret", "assign"):
+            R.append("c04.vmoves %s %s %s" % (k, lst(rvec(rng, m, fam)), lst(rvec(rng, n, fam))))
+    R.append("c04.moves blocks %s %s" % (mat_tok(rmat(rng, 2, 3, "dy")), mat_tok(rmat(rng, 3, 2, "dy"))))      # heights differ: diagnostic
+    for v in ([0.0], [0.0, 0.0, 0.0], [float("inf"), 1.0], [1.0, float("-inf")], [3.0, 4.0], [1e-320, 2e-320], [1e300, 1e300], [0.5]):
+        for k in ("norm", "normalize", "normalized"):
+            R.append("c04.fenv %s %s" % (k, lst(v)))
+    for _ in range(12 if thorough else 4):
+        for k in ("norm", "normalize", "normalized"):
+            R.append("c04.fenv %s %s" % (k, lst(rvec(rng, rng.randint(1, 5), "mx"))))
+
+
 def guard_block(R, rng, m, n, fam):
     """class A: conformable and non-conformable partners of an m x n matrix"""
     A = rmat(rng, m, n, fam); a = mat_tok(A)
@@ -654,6 +677,7 @@ def generate(tier, seed, ctx):
     normalized_scale_block(R, rng, thorough)
     rowcol_block(R, rng, thorough)
     gaps_block(R, rng, thorough)
+    moves_block(R, rng, thorough)
     pred_block(R)
     # the shortest stale-state histories as a fixed corpus
     R.append("c04.vhist 2 0x1.8p+1 0x1p+2 3 N - 2 0x1.8p+1 0x0p+0 N")
@@ -901,6 +925,28 @@ def pyref(op, a):
         if i >= r:
             return ERR
         return UNDEF if j >= k else V([(A[i][j], 0)], 0)
+    if op == "c04.moves":
+        k_ = c.tok(); A = c.mat(); B = c.mat()
+        mi_ = lambda M: [("int", M[0]), ("int", M[1])] + [(x, 0) for row in M[2] for x in row]
+        if k_ == "swap":
+            return V(mi_(B) + mi_(A), 0)
+        if k_ == "push":
+            return V(mi_(A) + mi_(B), 0)
+        if k_ == "blocks":
+            if A[0] != B[0]:
+                return ERR
+            return V(mi_((A[0], A[1] + B[1], [ra + rb for ra, rb in zip(A[2], B[2])])), 0)
+        return V(mi_(A), 0)
+    if op == "c04.vmoves":
+        k_ = c.tok(); u = c.vec(); v = c.vec()
+        vi_ = lambda w: [("int", len(w))] + [(x, 0) for x in w]
+        if k_ == "swap":
+            return V(vi_(v) + vi_(u), 0)
+        if k_ == "push":
+            return V(vi_(u) + vi_(v), 0)
+        return V(vi_(u), 0)
+    if op == "c04.fenv":
+        return V([("int", 1)], 0)
     if op == "c04.crossdot":
         u, v, p_, q_ = c.vec(), c.vec(), c.vec(), c.vec()
         if len(u) != 3 or len(v) != 3 or len(p_) != len(q_):
@@ -1622,7 +1668,7 @@ def check_bitwise(op, a, ref, ti):
 LAW_NAMES = ["transpose(A*B) == transpose(B)*transpose(A)", "A*I == A", "I*A == A", "transpose(transpose(A)) == A"]
 
 CHAIN_OPS = ("c04.mchain", "c04.vchain")
-LAYOUT_FROM_REF = CHAIN_OPS + ("c04.alias",)
+LAYOUT_FROM_REF = CHAIN_OPS + ("c04.alias", "c04.moves", "c04.vmoves", "c04.fenv")
 INT_HEADER = {"c04.plus": 2, "c04.minus": 2, "c04.mul": 2, "c04.smul": 2, "c04.sdiv": 2, "c04.transpose": 2,
               "c04.subm": 2, "c04.delrow": 2, "c04.delcol": 2, "c04.identity": 2, "c04.diag": 2, "c04.const": 2,
               "c04.ctor": 2, "c04.block": 2, "c04.blockr": 2, "c04.outer": 2, "c04.matvec": 1, "c04.vecmat": 1, "c04.retrow": 1,
@@ -1815,6 +1861,10 @@ def oracle(op, a, impl, ref):
     if d:
         if op in CHAIN_OPS:
             return ("chained compound assignment does not leave the sequential result in the object", d)
+        if op in ("c04.moves", "c04.vmoves"):
+            return ("an object constructed from an rvalue (swap / move / push_back / returned parameter) does not hold the value of its source", d)
+        if op == "c04.fenv":
+            return ("the caller's rounding mode is not left as it was found", d)
         return ("result differs from the definition", d)
     d = check_bitwise(op, a, ref, ti)
     if d:
